@@ -117,8 +117,7 @@ def correspondence(ctx):
                 b[rng.randrange(per)] ^= 0x55
             xx += b
         xx = bytes(xx)
-        ml_lines.append("cstream 100=%d,400=%d,201=1 %s %s 10000000 %s" % (rng.choice([1, 1, 3]), rng.choice([1, 2, 3]), xx.hex(), rng.choice(["300000", "1000000", "100000,700000"]),
-                                                                        rng.choice(["cccuc", "ccccccccuc", "cuc", "cccccuccccwc"])))
+        ml_lines.append("cstream 100=%d,400=%d,201=1 %s %s 10000000 %s" % ((rng.choice([1, 1, 3]), rng.choice([1, 2, 3]), xx.hex()) + datagen.mtlevel_dirs(rng)))
         ml_src.append(xx)
     ml_out = frames.parallel(lambda ch: frames.run_lines(frames.harness(), ch, timeout=1800)[1], frames.split_chunks(ml_lines, 8))
     ml_conf = frames.parallel(lambda ch: frames.model_lines(ch), frames.split_chunks(
